@@ -289,6 +289,16 @@ func runDefects(tier string, seed int64, langs []int) {
 				c[p] = []string{"zzzzzz", "notaword", c[p] + "q", "0", "éé"}[r.intn(5)]
 				recCheck(strings.Join(c, " "), L, Event{"cls": "unknown1"})
 			}
+			// a list word with an invisible character inside or after it (joiners, soft hyphen, variation selector, BOM):
+			// not a list word
+			for _, inv := range []string{"\u034f", "\u200d", "\u200c", "\u00ad", "\u2060", "\ufeff", "\ufe0f", "\u180e"} {
+				c := append([]string(nil), ws...)
+				p := r.intn(w)
+				rs := []rune(c[p])
+				k := 1 + r.intn(len(rs))
+				c[p] = string(rs[:k]) + inv + string(rs[k:])
+				recCheck(strings.Join(c, " "), L, Event{"cls": "invisible"})
+			}
 			// one unknown token of growing size (the kind of error must not depend on how long the stranger is)
 			longs := []int{64, 300, 900, 2000, 9000}
 			if tier == "thorough" && L == int64(seed%10) {
